@@ -1,19 +1,1207 @@
+// keyedstate replays behaviours of spec/KeyedState.tla (property C03) on
+//
+//	Mode "store"    the real operator.KeyedStateStore (+ the real TimerStore
+//	                sharing the database) over a real dkv.DB with tiny memtables;
+//	                DKV's background flush / compaction goroutines are driven
+//	                through the dkv verif gates (harness/dkvsched), the model's
+//	                Bg steps deciding where they advance - also between the two
+//	                captures of the prefix scan inside a fetch;
+//	Mode "operator" the real operator.Operator: events are delivered through
+//	                HandleEvent, batches are cut by size or by the (harness
+//	                owned) batch timer, the harness is the handler: it checks
+//	                the KeyStates of EVERY ProcessEventBatchRequest against a
+//	                shadow map and answers with the mutations / timers the
+//	                model chose; checkpoints are taken with barriers and
+//	                restored by deploying a new operator from the reported
+//	                OperatorCheckpoint;
+//	Mode "tables"   prints the concretisation tables with the key group bytes
+//	                computed by the repository's partitioning package (they
+//	                become constants of the spec).
+//
+// Observable: the state entries handed to the handler / returned by
+// KeyedStateStore.GetState. Demanded (by the property): exactly the live cells
+// of the key's map as the handler's own mutations left it (computed twice:
+// by the spec - field `want` - and by the harness's shadow map; a disagreement
+// between those two is a machinery error), every namespace in one group, no
+// order demanded.
+//
+// The concretisation is aliasing-hostile: keys that are prefixes of one
+// another, keys / namespaces / entry keys containing the separator-like bytes
+// 0x00 and the length-like bytes, empty strings, keys >= 256 bytes, several
+// keys in one key group, key groups on both sides of 0x80, timer timestamps
+// whose 8 bytes spell <len><key><ns-len> of a state prefix.
 package main
 
 import (
+	"bytes"
+	"context"
+	"encoding/binary"
 	"fmt"
+	"math/rand"
+	"os"
+	"sort"
+	"strings"
+	"time"
 
+	"google.golang.org/protobuf/types/known/timestamppb"
+	"reduction.dev/reduction-protocol/handlerpb"
+	"reduction.dev/reduction/batching"
+	"reduction.dev/reduction/clocks"
+	"reduction.dev/reduction/dkv"
+	"reduction.dev/reduction/dkv/recovery"
 	"reduction.dev/reduction/partitioning"
+	"reduction.dev/reduction/proto"
+	"reduction.dev/reduction/proto/jobpb"
+	"reduction.dev/reduction/proto/snapshotpb"
+	"reduction.dev/reduction/proto/workerpb"
+	"reduction.dev/reduction/workers/operator"
+	"verif/harness/dkvsched"
+	"verif/harness/fsx"
+	"verif/harness/gate"
+	"verif/harness/mbt"
+	"verif/harness/opkit"
 )
 
-func main() {
-	keys := []string{"a", "ab", "a\x00", "", "b", "\x00", "aa", "a\x00\x00"}
-	for _, n := range []int{1, 2, 3, 4, 5, 6, 7, 8, 16, 256, 65535} {
-		ks := partitioning.NewKeySpace(n, 1)
-		fmt.Printf("%6d:", n)
-		for _, k := range keys {
-			fmt.Printf(" %q=%d", k, ks.KeyGroup([]byte(k)))
+const propID = "C03"
+
+// ------------------------------------------------------------------ tables ----
+
+type table struct {
+	Name    string
+	KGCount int
+	Keys    []string // subject keys, ids 1..
+	NS      []string // namespaces (valid UTF-8: the protocol field is a string)
+	EK      []string // entry keys
+	Vals    []string // ids 1, 2; id 3 is always the EMPTY value
+	Times   []int64  // timer times (UnixNano), ids 1..
+}
+
+func rep(s string, n int) string { return strings.Repeat(s, n) }
+
+// aliasTime: a timestamp whose 8 big-endian bytes are <uint32 len(key)><key><0...>,
+// i.e. what follows the schema byte in key's state prefix, then namespace length 0.
+func aliasTime(key string) int64 {
+	var b [8]byte
+	binary.BigEndian.PutUint32(b[0:4], uint32(len(key)))
+	copy(b[4:], key)
+	return int64(binary.BigEndian.Uint64(b[:]))
+}
+
+// samePair finds a short key s such that s and s+suffix fall into the same key
+// group under count groups and the group's low byte is >= 0x80 (hi) or < 0x80.
+func samePair(count int, suffix string, hi bool, salt byte) string {
+	ks := partitioning.NewKeySpace(count, 1)
+	for i := 0; i < 1<<20; i++ {
+		s := string([]byte{salt, byte('A' + i%26), byte(i / 26), byte(i / (26 * 256))})
+		g := ks.KeyGroup([]byte(s))
+		if g != ks.KeyGroup([]byte(s+suffix)) {
+			continue
 		}
-		fmt.Println()
+		if (byte(g) >= 0x80) == hi && g > 0 {
+			return s
+		}
 	}
+	panic("keyedstate: no key pair found")
+}
+
+var tables = func() []table {
+	ns0 := []string{"", "b", "\x00"}
+	ek0 := []string{"", "b", "\x00b"}
+	v0 := []string{"1", "\x00"}
+	s := samePair(256, "b", true, 's')
+	u := samePair(256, "\x00", false, 'u')
+	return []table{
+		{Name: "prefixes, 3 groups (a, ab, a\\x00 share one)", KGCount: 3,
+			Keys: []string{"a", "ab", "a\x00", "", "\x00"}, NS: ns0, EK: ek0, Vals: v0,
+			Times: []int64{aliasTime("a"), 0x10000, aliasTime("ab")}},
+		{Name: "0xff and >=256-byte keys, one group", KGCount: 1,
+			Keys: []string{rep("k", 256), rep("k", 257), "", "\xff", "\xff\xff"},
+			NS:   []string{"", rep("n", 255), "é"}, EK: []string{"", "\xff", rep("e", 300)}, Vals: []string{"\xff", rep("v", 300)},
+			Times: []int64{0x100, aliasTime("\xff"), aliasTime("\xff\xff")}},
+		{Name: "256 groups, pairs sharing a group on both sides of 0x80", KGCount: 256,
+			Keys: []string{s, s + "b", u, u + "\x00", ""}, NS: ns0, EK: ek0, Vals: v0,
+			Times: []int64{aliasTime(s), 0x10000, aliasTime(u)}},
+		{Name: "65535 groups, first key-group byte on both sides of 0x80", KGCount: 65535,
+			Keys: []string{"a", "ab", "a\x00", "", "aa"}, NS: ns0, EK: ek0, Vals: v0,
+			Times: []int64{aliasTime("a"), 0x10000, aliasTime("ab")}},
+	}
+}()
+
+func byteList(s string) []int {
+	out := make([]int, len(s))
+	for i := 0; i < len(s); i++ {
+		out[i] = int(s[i])
+	}
+	return out
+}
+
+func tablesJSON() any {
+	var out []any
+	for _, t := range tables {
+		ks := partitioning.NewKeySpace(t.KGCount, 1)
+		m := map[string]any{"name": t.Name, "kgcount": t.KGCount}
+		var kb, kg, nb, eb, tb [][]int
+		for _, k := range t.Keys {
+			kb = append(kb, byteList(k))
+			var b [2]byte
+			ks.KeyGroup([]byte(k)).PutBytes(b[:])
+			kg = append(kg, []int{int(b[0]), int(b[1])})
+		}
+		for _, n := range t.NS {
+			nb = append(nb, byteList(n))
+		}
+		for _, e := range t.EK {
+			eb = append(eb, byteList(e))
+		}
+		for _, x := range t.Times {
+			var b [8]byte
+			binary.BigEndian.PutUint64(b[:], uint64(time.Unix(0, x).UnixNano()))
+			tb = append(tb, byteList(string(b[:])))
+		}
+		m["KeyB"], m["KgB"], m["NsB"], m["EkB"], m["TimeB"] = kb, kg, nb, eb, tb
+		out = append(out, m)
+	}
+	return out
+}
+
+// ------------------------------------------------------------- shadow map ----
+
+type cell struct{ n, e int }
+type shadow map[int]map[cell]int // key id -> (ns id, entry id) -> value id (1..3)
+
+func (s shadow) apply(k, n, e, v int) {
+	if s[k] == nil {
+		s[k] = map[cell]int{}
+	}
+	if v == 0 {
+		delete(s[k], cell{n, e})
+	} else {
+		s[k][cell{n, e}] = v
+	}
+}
+func (s shadow) clone() shadow {
+	c := shadow{}
+	for k, m := range s {
+		c[k] = map[cell]int{}
+		for x, v := range m {
+			c[k][x] = v
+		}
+	}
+	return c
+}
+
+// triples renders the live cells of key k as sorted [n, e, v] triples (the
+// format of the spec's `want`).
+func (s shadow) triples(k int) [][3]int {
+	out := [][3]int{}
+	for x, v := range s[k] {
+		out = append(out, [3]int{x.n, x.e, v})
+	}
+	sort.Slice(out, func(i, j int) bool {
+		if out[i][0] != out[j][0] {
+			return out[i][0] < out[j][0]
+		}
+		return out[i][1] < out[j][1]
+	})
+	return out
+}
+
+func wantTriples(x any) [][3]int {
+	out := [][3]int{}
+	arr, _ := x.([]any)
+	for _, t := range arr {
+		a, _ := t.([]any)
+		if len(a) != 3 {
+			continue
+		}
+		var r [3]int
+		for i := range r {
+			f, _ := a[i].(float64)
+			r[i] = int(f)
+		}
+		out = append(out, r)
+	}
+	return out
+}
+
+func sameTriples(a, b [][3]int) bool {
+	if len(a) != len(b) {
+		return false
+	}
+	for i := range a {
+		if a[i] != b[i] {
+			return false
+		}
+	}
+	return true
+}
+
+// ---------------------------------------------------------- judging a fetch ----
+
+type conc struct {
+	tb *table
+	ks *partitioning.KeySpace
+	nk int
+}
+
+func (c *conc) key(k int) []byte { return []byte(c.tb.Keys[k-1]) }
+func (c *conc) ns(n int) string  { return c.tb.NS[n-1] }
+func (c *conc) ek(e int) []byte  { return []byte(c.tb.EK[e-1]) }
+func (c *conc) val(v int) []byte {
+	if v == 3 {
+		return []byte{}
+	}
+	return []byte(c.tb.Vals[v-1])
+}
+func (c *conc) tm(t int) time.Time { return time.Unix(0, c.tb.Times[t-1]) }
+func (c *conc) keyID(b []byte) int {
+	for i, k := range c.tb.Keys {
+		if k == string(b) {
+			return i + 1
+		}
+	}
+	return 0
+}
+
+func short(b string) string {
+	if len(b) > 12 {
+		return fmt.Sprintf("%q..(%d bytes)", b[:6], len(b))
+	}
+	return fmt.Sprintf("%q", b)
+}
+
+type obsEntry struct {
+	NS, Key, Val string
+}
+
+func render(state []*handlerpb.StateEntryNamespace) []string {
+	out := []string{}
+	for _, g := range state {
+		for _, e := range g.Entries {
+			out = append(out, fmt.Sprintf("ns=%s key=%s val=%s", short(g.Namespace), short(string(e.Key)), short(string(e.Value))))
+		}
+	}
+	return out
+}
+
+// judge compares the state entries supplied for key k with the live cells
+// `want` ([n, e, v] triples). It returns "" if they are exactly those, every
+// namespace in one group, each entry once; otherwise what is wrong.
+func (c *conc) judge(k int, state []*handlerpb.StateEntryNamespace, want [][3]int) string {
+	type ck struct{ ns, ek string }
+	exp := map[ck]string{}
+	for _, t := range want {
+		exp[ck{c.ns(t[0]), string(c.ek(t[1]))}] = string(c.val(t[2]))
+	}
+	seenNS := map[string]bool{}
+	seen := map[ck]bool{}
+	for _, g := range state {
+		if len(g.Entries) == 0 {
+			continue // an empty group supplies no entry
+		}
+		if seenNS[g.Namespace] {
+			return fmt.Sprintf("entries of namespace %s are supplied in more than one group", short(g.Namespace))
+		}
+		seenNS[g.Namespace] = true
+		for _, e := range g.Entries {
+			x := ck{g.Namespace, string(e.Key)}
+			if seen[x] {
+				return fmt.Sprintf("entry ns=%s key=%s is supplied twice", short(x.ns), short(x.ek))
+			}
+			seen[x] = true
+			w, ok := exp[x]
+			if !ok {
+				return fmt.Sprintf("an entry the key's map does not contain is supplied: ns=%s key=%s val=%s (deleted entry, another key's / namespace's entry, or a timer)",
+					short(x.ns), short(x.ek), short(string(e.Value)))
+			}
+			if w != string(e.Value) {
+				return fmt.Sprintf("entry ns=%s key=%s has value %s, the last put was %s", short(x.ns), short(x.ek), short(string(e.Value)), short(w))
+			}
+		}
+	}
+	for x := range exp {
+		if !seen[x] {
+			return fmt.Sprintf("entry ns=%s key=%s (put and not deleted since) is missing", short(x.ns), short(x.ek))
+		}
+	}
+	return ""
+}
+
+func (c *conc) expectStr(want [][3]int) []string {
+	out := []string{}
+	for _, t := range want {
+		out = append(out, fmt.Sprintf("ns=%s key=%s val=%s", short(c.ns(t[0])), short(string(c.ek(t[1]))), short(string(c.val(t[2])))))
+	}
+	return out
+}
+
+// --------------------------------------------------------- response building ----
+
+type item struct {
+	timer   bool
+	k, n, e int
+	v, t    int
+}
+
+// mutation groups: consecutive items of one key become one KeyResult /
+// ApplyMutations call; consecutive mutations of one namespace one
+// StateMutationNamespace.
+func (c *conc) mutations(items []item) []*handlerpb.StateMutationNamespace {
+	var out []*handlerpb.StateMutationNamespace
+	for _, it := range items {
+		if it.timer {
+			continue
+		}
+		ns := c.ns(it.n)
+		if len(out) == 0 || out[len(out)-1].Namespace != ns {
+			out = append(out, &handlerpb.StateMutationNamespace{Namespace: ns})
+		}
+		var m *handlerpb.StateMutation
+		if it.v == 0 {
+			m = &handlerpb.StateMutation{Mutation: &handlerpb.StateMutation_Delete{Delete: &handlerpb.DeleteMutation{Key: c.ek(it.e)}}}
+		} else {
+			m = &handlerpb.StateMutation{Mutation: &handlerpb.StateMutation_Put{Put: &handlerpb.PutMutation{Key: c.ek(it.e), Value: c.val(it.v)}}}
+		}
+		out[len(out)-1].Mutations = append(out[len(out)-1].Mutations, m)
+	}
+	return out
+}
+
+func stepItem(st mbt.Step) (item, bool) {
+	switch st.Str("a") {
+	case "Apply":
+		return item{k: st.Int("k"), n: st.Int("n"), e: st.Int("e"), v: st.Int("v")}, true
+	case "SetTimer":
+		return item{timer: true, k: st.Int("k"), t: st.Int("t")}, true
+	}
+	return item{}, false
+}
+
+// usable prefix: a behaviour cut by the length bound may end inside a batch
+func usable(beh []mbt.Step) int {
+	n, in := 0, false
+	for i, st := range beh {
+		switch st.Str("a") {
+		case "BatchStart":
+			in = true
+		case "BatchEnd":
+			in = false
+		}
+		if !in {
+			n = i + 1
+		}
+	}
+	return n
+}
+
+// ------------------------------------------------------------ common pieces ----
+
+type run struct {
+	in   *mbt.Input
+	res  *mbt.Result
+	bi   int
+	c    *conc
+	s    *dkvsched.Sched
+	sh   shadow
+	rng  *rand.Rand
+	snap map[int]shadow
+	dead bool // a verdict or an error has been recorded: stop
+}
+
+func (r *run) violate(si int, what string, exp, obs any) {
+	r.res.Violations = append(r.res.Violations, mbt.Violation{Property: propID, Behaviour: r.bi, Step: si, What: what, Expected: exp, Observed: obs})
+	r.dead = true
+}
+func (r *run) machinery(si int, err error) {
+	r.res.Errors = append(r.res.Errors, fmt.Sprintf("b%d s%d: %v", r.bi, si, err))
+	r.dead = true
+}
+
+func tuneFrom(in *mbt.Input) func(string, int64) int64 {
+	return func(name string, def int64) int64 {
+		if v, ok := in.Config["tune."+name].(float64); ok {
+			return int64(v)
+		}
+		return def
+	}
+}
+
+func newRun(bi int, in *mbt.Input, res *mbt.Result) *run {
+	ci := in.CfgInt("Conc", 0)
+	tb := &tables[ci]
+	r := &run{in: in, res: res, bi: bi, sh: shadow{}, snap: map[int]shadow{},
+		c:   &conc{tb: tb, ks: partitioning.NewKeySpace(tb.KGCount, 1), nk: in.CfgInt("NK", 3)},
+		rng: rand.New(rand.NewSource(in.Seed*1000003 + int64(bi)))}
+	return r
+}
+
+// checkFetch judges one supplied state against the spec's want and the shadow.
+func (r *run) checkFetch(si, k int, state []*handlerpb.StateEntryNamespace, want [][3]int, where string) {
+	mine := r.sh.triples(k)
+	if want != nil && !sameTriples(want, mine) {
+		r.machinery(si, fmt.Errorf("spec and shadow map disagree about key %d: %v vs %v", k, want, mine))
+		return
+	}
+	r.res.Count("fetches_checked", 1)
+	if len(mine) > 0 {
+		r.res.Count("fetches_nonempty", 1)
+	}
+	if what := r.c.judge(k, state, mine); what != "" {
+		r.violate(si, fmt.Sprintf("%s for key %s: %s", where, short(string(r.c.key(k))), what), r.c.expectStr(mine), render(state))
+	}
+}
+
+// ================================================================ store tier ====
+
+type fetchRes struct {
+	state []*handlerpb.StateEntryNamespace
+	err   error
+	pan   any
+}
+
+type storeWorld struct {
+	*run
+	store   *fsx.Store
+	view    *fsx.View
+	gen     int
+	db      *dkv.DB
+	st      *operator.KeyedStateStore
+	ts      *operator.TimerStore
+	handles map[int]recovery.CheckpointHandle
+	pending map[[2]int]bool         // timers
+	pendAt  map[int]map[[2]int]bool // timers at checkpoint id
+	ch      chan fetchRes
+	done    chan struct{}
+	arr     *gate.Arrival
+}
+
+func (w *storeWorld) opts() dkv.DBOptions {
+	return dkv.DBOptions{FileSystem: w.view, MemTableSize: uint64(w.in.CfgInt("MemCap", 60)),
+		TargetFileSize: uint64(w.in.CfgInt("TargetFileSize", 0)), L0TableNumCompactionTrigger: w.in.CfgInt("L0Trigger", 2)}
+}
+
+func (w *storeWorld) attach() {
+	w.st = operator.NewKeyedStateStore(w.db, w.c.ks)
+	w.ts = operator.NewTimerStore(w.db, w.c.ks, partitioning.KeyGroupRange{Start: 0, End: w.c.tb.KGCount}, 1<<20)
+}
+
+func (w *storeWorld) getState(k int) (res fetchRes) {
+	defer func() {
+		if p := recover(); p != nil {
+			res.pan = p
+		}
+	}()
+	res.state, res.err = w.st.GetState(w.c.key(k))
+	return
+}
+
+func (w *storeWorld) fetchNow(si, k int, want [][3]int, where string) {
+	res := w.getState(k)
+	if res.pan != nil || res.err != nil {
+		w.violate(si, fmt.Sprintf("%s: GetState(%s) fails: %v %v", where, short(string(w.c.key(k))), res.pan, res.err), nil, nil)
+		return
+	}
+	w.checkFetch(si, k, res.state, want, where)
+}
+
+func replayStore(bi int, beh []mbt.Step, in *mbt.Input, res *mbt.Result) {
+	r := newRun(bi, in, res)
+	w := &storeWorld{run: r, store: fsx.NewStore(), handles: map[int]recovery.CheckpointHandle{}, pending: map[[2]int]bool{}, pendAt: map[int]map[[2]int]bool{}}
+	r.s = dkvsched.New(tuneFrom(in))
+	defer func() {
+		r.s.Close()
+		if w.db != nil {
+			waitTasks(w.db)
+		}
+	}()
+	w.view = w.store.View("g0", "/db")
+	w.db = dkv.New(w.opts())
+	r.s.SetMain(w.db)
+	if err := w.db.Start(nil); err != nil {
+		r.machinery(0, err)
+		return
+	}
+	w.attach()
+	beh = beh[:usable(beh)]
+	for si := 0; si < len(beh) && !r.dead; si++ {
+		st := beh[si]
+		switch a := st.Str("a"); a {
+		case "BatchStart":
+			r.s.ArmScan(true)
+		case "FetchBegin":
+			k := st.Int("k")
+			w.ch, w.done = make(chan fetchRes, 1), make(chan struct{})
+			go func(ch chan fetchRes, done chan struct{}) { ch <- w.getState(k); close(done) }(w.ch, w.done)
+			arr, err := r.s.AwaitScan(w.done)
+			if err != nil {
+				r.machinery(si, err)
+				return
+			}
+			w.arr = arr
+		case "FetchEnd":
+			k := st.Int("k")
+			if w.arr != nil {
+				w.arr.Release()
+				w.arr = nil
+			}
+			fr := <-w.ch
+			if fr.pan != nil || fr.err != nil {
+				r.violate(si, fmt.Sprintf("GetState(%s) fails: %v %v", short(string(w.c.key(k))), fr.pan, fr.err), nil, nil)
+				return
+			}
+			r.checkFetch(si, k, fr.state, wantTriples(st["want"]), "state fetched for a batch")
+		case "HandlerReturn":
+			r.s.ArmScan(false)
+		case "Apply":
+			// one ApplyMutations call for a run of consecutive mutations of this key
+			// (at most 3 writes per call: dkv's task queues hold 6 rotations)
+			it, _ := stepItem(st)
+			items := []item{it}
+			lim := 1 + r.rng.Intn(3)
+			for si+1 < len(beh) && len(items) < lim {
+				nx, ok := stepItem(beh[si+1])
+				if !ok || nx.timer || nx.k != it.k {
+					break
+				}
+				items = append(items, nx)
+				si++
+			}
+			if err := w.st.ApplyMutations(w.c.key(it.k), w.c.mutations(items)); err != nil {
+				r.violate(si, fmt.Sprintf("ApplyMutations fails: %v", err), nil, nil)
+				return
+			}
+			for _, x := range items {
+				r.sh.apply(x.k, x.n, x.e, x.v)
+			}
+			res.Count("mutations", len(items))
+			res.Steps += len(items) - 1
+			if err := r.s.AfterWrite(); err != nil {
+				r.machinery(si, err)
+				return
+			}
+		case "SetTimer":
+			k, t := st.Int("k"), st.Int("t")
+			w.ts.Put(w.c.key(k), w.c.tm(t))
+			w.pending[[2]int{k, t}] = true
+			res.Count("timers_set", 1)
+			if err := r.s.AfterWrite(); err != nil {
+				r.machinery(si, err)
+				return
+			}
+		case "PopTimer":
+			tm, ok := w.ts.Pop()
+			if !ok {
+				res.Driftf("b%d s%d: TimerStore.Pop returns nothing although %d timers were set and not popped (timers are C10's)", bi, si, len(w.pending))
+				return
+			}
+			found := false
+			for p := range w.pending {
+				if bytes.Equal(w.c.key(p[0]), tm.Key) && w.c.tm(p[1]).Equal(tm.Timestamp) {
+					delete(w.pending, p)
+					found = true
+					break
+				}
+			}
+			if !found {
+				res.Driftf("b%d s%d: TimerStore.Pop returns a timer that is not pending (timers are C10's)", bi, si)
+				return
+			}
+			res.Count("timers_popped", 1)
+			if err := r.s.AfterWrite(); err != nil {
+				r.machinery(si, err)
+				return
+			}
+		case "BatchEnd":
+		case "Bg":
+			if _, err := r.s.Step(st.Str("lane")); err != nil {
+				r.machinery(si, err)
+				return
+			}
+		case "Checkpoint":
+			id := st.Int("id")
+			h, err := w.db.Checkpoint(uint64(id))()
+			if err != nil {
+				r.machinery(si, fmt.Errorf("checkpoint %d: %v", id, err))
+				return
+			}
+			w.handles[id] = h
+			r.snap[id] = r.sh.clone()
+			w.pendAt[id] = map[[2]int]bool{}
+			for p := range w.pending {
+				w.pendAt[id][p] = true
+			}
+			res.Count("checkpoints", 1)
+		case "Restore":
+			id := st.Int("id")
+			// the process is abandoned: nothing of it reaches storage any more
+			w.view.Kill()
+			r.s.SetMain(nil)
+			w.gen++
+			w.view = w.store.View(fmt.Sprintf("g%d", w.gen), "/db")
+			var pan any
+			func() {
+				defer func() { pan = recover() }()
+				// the WAL replay may rotate more often than dkv's task queue can hold
+				// while a gate is closed: the new database runs freely until it is open
+				w.db = dkv.New(w.opts())
+				if err := w.db.Start([]recovery.CheckpointHandle{w.handles[id]}); err != nil {
+					pan = err
+				}
+			}()
+			if pan != nil {
+				r.violate(si, fmt.Sprintf("re-opening the database from checkpoint %d fails: %v", id, pan), nil, nil)
+				return
+			}
+			waitTasks(w.db)
+			r.s.SetMain(w.db)
+			if err := r.s.AfterWrite(); err != nil {
+				r.machinery(si, err)
+				return
+			}
+			w.attach()
+			r.sh = r.snap[id].clone()
+			w.pending = map[[2]int]bool{}
+			for p := range w.pendAt[id] {
+				w.pending[p] = true
+			}
+			res.Count("restores", 1)
+			all, _ := st["all"].([]any)
+			for k := 1; k <= r.c.nk && !r.dead; k++ {
+				var want [][3]int
+				if k-1 < len(all) {
+					want = wantTriples(all[k-1])
+				}
+				w.fetchNow(si, k, want, fmt.Sprintf("state read after restoring checkpoint %d", id))
+			}
+		default:
+			r.machinery(si, fmt.Errorf("unknown action %q", a))
+			return
+		}
+		res.Steps++
+	}
+	if r.dead {
+		return
+	}
+	// read everything back: first with the background work as it stands, then drained
+	for k := 1; k <= r.c.nk && !r.dead; k++ {
+		w.fetchNow(len(beh), k, nil, "final read-back")
+	}
+	if err := r.s.Drain(); err != nil {
+		r.machinery(len(beh), err)
+		return
+	}
+	for k := 1; k <= r.c.nk && !r.dead; k++ {
+		w.fetchNow(len(beh), k, nil, "final read-back after all flushes and compactions")
+	}
+	if r.dead {
+		return
+	}
+	res.Count("bg_steps", r.s.Steps)
+	res.Count("bg_steps_forced", r.s.Forced)
+	res.Count("bg_steps_skipped", r.s.Skipped)
+	res.Executed++
+}
+
+func waitTasks(db *dkv.DB) {
+	done := make(chan struct{})
+	go func() { db.WaitOnTasks(); close(done) }()
+	select {
+	case <-done:
+	case <-time.After(5 * time.Second):
+	}
+}
+
+// ============================================================= operator tier ====
+
+type hcall struct {
+	req  *handlerpb.ProcessEventBatchRequest
+	resp chan *handlerpb.ProcessEventBatchResponse
+}
+
+// handler is the harness as proto.Handler: every request is handed to the
+// replayer, which answers it.
+type handler struct{ calls chan hcall }
+
+func (h *handler) KeyEventBatch(ctx context.Context, events [][]byte) ([][]*handlerpb.KeyedEvent, error) {
+	panic("unused by operators")
+}
+func (h *handler) ProcessEventBatch(ctx context.Context, req *handlerpb.ProcessEventBatchRequest) (*handlerpb.ProcessEventBatchResponse, error) {
+	c := hcall{req: req, resp: make(chan *handlerpb.ProcessEventBatchResponse, 1)}
+	select {
+	case h.calls <- c:
+	case <-ctx.Done():
+		return nil, ctx.Err()
+	}
+	select {
+	case r := <-c.resp:
+		return r, nil
+	case <-ctx.Done():
+		return nil, ctx.Err()
+	}
+}
+
+var _ proto.Handler = (*handler)(nil)
+
+type opWorld struct {
+	*run
+	dir    string
+	gen    int
+	op     *operator.Operator
+	h      *handler
+	job    *opkit.JobRec
+	tm     *opkit.Timer
+	cancel context.CancelFunc
+	done   chan error
+	ctx    context.Context
+
+	maxSize int
+	evs     []int          // events of the current batch
+	wants   map[int][][3]int // key -> want of the current batch (from FetchEnd)
+	fg      chan error     // the foreground call that makes the operator process the batch
+	fgDone  chan struct{}
+	arr     *gate.Arrival
+	wm      int64
+}
+
+func (w *opWorld) start(ckpts []*snapshotpb.OperatorCheckpoint) error {
+	w.gen++
+	id := fmt.Sprintf("op-g%d", w.gen)
+	w.h = &handler{calls: make(chan hcall)}
+	w.tm = &opkit.Timer{}
+	w.op = operator.NewOperator(operator.NewOperatorParams{
+		ID: id, Host: id + "-host", Job: w.job, UserHandler: w.h, Clock: clocks.NewFrozenClock(),
+		EventBatching: batching.EventBatcherParams{MaxDelay: time.Hour, MaxSize: w.maxSize, Timer: w.tm},
+		NeighborOperatorFactory: func(senderID string, node *jobpb.NodeIdentity) proto.Operator {
+			return &proto.UnimplementedOperator{}
+		},
+	})
+	ctx, cancel := context.WithCancel(context.Background())
+	w.ctx, w.cancel = ctx, cancel
+	if err := w.op.HandleDeploy(ctx, &workerpb.DeployOperatorRequest{
+		Operators:       []*jobpb.NodeIdentity{{Id: id, Host: id + "-host"}},
+		SourceRunnerIds: []string{"sr"},
+		KeyGroupCount:   int32(w.c.tb.KGCount),
+		StorageLocation: w.dir,
+		Checkpoints:     ckpts,
+	}, nil); err != nil {
+		cancel()
+		return err
+	}
+	w.done = make(chan error, 1)
+	go func(op *operator.Operator, done chan error) { done <- op.Start(ctx) }(w.op, w.done)
+	return nil
+}
+
+func (w *opWorld) stop() {
+	if w.op == nil {
+		return
+	}
+	w.op.Halt()
+	w.cancel()
+	select {
+	case <-w.done:
+	case <-time.After(2 * time.Second):
+	}
+	w.op = nil
+}
+
+// send delivers one event, retrying while the event loop is not running yet.
+func (w *opWorld) send(ev *workerpb.Event) error {
+	return w.op.HandleEvent(w.ctx, "sr", ev)
+}
+
+func keyed(key []byte) *workerpb.Event {
+	return &workerpb.Event{Event: &workerpb.Event_KeyedEvent{KeyedEvent: &handlerpb.KeyedEvent{Key: key, Value: []byte("v")}}}
+}
+
+// serve answers handler calls the model does not script (timer expiries):
+// the supplied state of every key is still judged against the shadow map.
+func (w *opWorld) serve(si int, c hcall) {
+	for _, ks := range c.req.KeyStates {
+		k := w.c.keyID(ks.Key)
+		if k == 0 {
+			w.violate(si, fmt.Sprintf("the handler is given state for a key it never saw: %s", short(string(ks.Key))), nil, render(ks.StateEntryNamespaces))
+			break
+		}
+		w.checkFetch(si, k, ks.StateEntryNamespaces, nil, "state supplied with a timer expiry")
+	}
+	w.res.Count("timer_calls", 1)
+	c.resp <- &handlerpb.ProcessEventBatchResponse{}
+}
+
+// await runs fn (a foreground call into the operator) and serves unscripted
+// handler calls until it returns.
+func (w *opWorld) awaitServing(si int, fn func() error) error {
+	errc := make(chan error, 1)
+	go func() { errc <- fn() }()
+	for {
+		select {
+		case err := <-errc:
+			return err
+		case c := <-w.h.calls:
+			w.serve(si, c)
+		case <-time.After(dkvsched.Wait):
+			return fmt.Errorf("foreground call into the operator does not return")
+		}
+	}
+}
+
+func replayOperator(bi int, beh []mbt.Step, in *mbt.Input, res *mbt.Result) {
+	r := newRun(bi, in, res)
+	w := &opWorld{run: r, job: &opkit.JobRec{}, maxSize: in.CfgInt("MaxBatch", 3)}
+	dir, err := opkit.TempDir("keyedstate")
+	if err != nil {
+		r.machinery(0, err)
+		return
+	}
+	w.dir = dir
+	defer os.RemoveAll(dir)
+	r.s = dkvsched.New(tuneFrom(in))
+	defer func() {
+		r.s.Close()
+		w.stop()
+	}()
+	r.s.AdoptNext()
+	if err := w.start(nil); err != nil {
+		r.machinery(0, err)
+		return
+	}
+	// wait for the event loop
+	for i := 0; ; i++ {
+		if err := w.send(&workerpb.Event{Event: &workerpb.Event_Watermark{Watermark: &workerpb.Watermark{Timestamp: timestamppb.New(time.Unix(0, 0))}}}); err == nil {
+			break
+		} else if i > 2000 {
+			r.machinery(0, fmt.Errorf("operator does not accept events: %v", err))
+			return
+		}
+		time.Sleep(100 * time.Microsecond)
+	}
+	beh = beh[:usable(beh)]
+	for si := 0; si < len(beh) && !r.dead; si++ {
+		st := beh[si]
+		switch a := st.Str("a"); a {
+		case "BatchStart":
+			// room for the rotations of one apply phase in dkv's task queue
+			if err := r.s.Relieve(1); err != nil {
+				r.machinery(si, err)
+				return
+			}
+			w.evs = st.Ints("evs")
+			w.wants = map[int][][3]int{}
+			if len(w.evs) > w.maxSize {
+				r.machinery(si, fmt.Errorf("batch of %d events, operator batch size %d", len(w.evs), w.maxSize))
+				return
+			}
+			r.s.ArmScan(true)
+			for _, k := range w.evs[:len(w.evs)-1] {
+				if err := w.send(keyed(w.c.key(k))); err != nil {
+					r.machinery(si, err)
+					return
+				}
+			}
+			w.fg, w.fgDone = make(chan error, 1), make(chan struct{})
+			last, full := w.evs[len(w.evs)-1], len(w.evs) == w.maxSize
+			go func(fg chan error, done chan struct{}) {
+				defer close(done)
+				if err := w.send(keyed(w.c.key(last))); err != nil {
+					fg <- err
+					return
+				}
+				if !full { // the batch is cut by its time-out
+					if d := w.tm.Take(); d != nil {
+						d()
+					} else {
+						fg <- fmt.Errorf("batch timer not armed")
+						return
+					}
+				}
+				fg <- nil
+			}(w.fg, w.fgDone)
+		case "FetchBegin":
+			// the operator's loop fetches the batch's keys in event order; if it
+			// does not scan at all it is the handler call that will be judged
+			arr, err := r.s.AwaitScan(w.fgDone)
+			if err != nil {
+				arr = nil
+			}
+			w.arr = arr
+		case "FetchEnd":
+			w.wants[st.Int("k")] = wantTriples(st["want"])
+			if st.Bool("last") {
+				r.s.ArmScan(false)
+			}
+			if w.arr != nil {
+				w.arr.Release()
+				w.arr = nil
+			}
+		case "HandlerReturn":
+			r.s.ArmScan(false)
+			r.s.G.ReleaseWhere(func(a *gate.Arrival) bool { return a.Point == dkvsched.PtScanBetween })
+			var c hcall
+			select {
+			case c = <-w.h.calls:
+			case err := <-w.fg:
+				r.violate(si, fmt.Sprintf("the operator finished a batch of %d events without calling the handler (%v)", len(w.evs), err), nil, nil)
+				return
+			case <-time.After(dkvsched.Wait):
+				r.machinery(si, fmt.Errorf("handler not called"))
+				return
+			}
+			// events: the batch, in order
+			if len(c.req.Events) != len(w.evs) {
+				res.Driftf("b%d s%d: handler called with %d events, batch has %d (batching is C20's)", bi, si, len(c.req.Events), len(w.evs))
+				c.resp <- &handlerpb.ProcessEventBatchResponse{}
+				return
+			}
+			// KeyStates: one per distinct key of the batch, nothing else
+			distinct := map[int]bool{}
+			for _, k := range w.evs {
+				distinct[k] = true
+			}
+			seen := map[int]bool{}
+			for _, ks := range c.req.KeyStates {
+				k := w.c.keyID(ks.Key)
+				if k == 0 || !distinct[k] {
+					r.violate(si, fmt.Sprintf("the handler is given state of key %s, which has no event in the batch", short(string(ks.Key))), nil, render(ks.StateEntryNamespaces))
+					break
+				}
+				if seen[k] {
+					r.violate(si, fmt.Sprintf("the handler is given two states for key %s", short(string(ks.Key))), nil, nil)
+					break
+				}
+				seen[k] = true
+				r.checkFetch(si, k, ks.StateEntryNamespaces, w.wants[k], "state supplied to the handler")
+				if r.dead {
+					break
+				}
+			}
+			if !r.dead {
+				for k := range distinct {
+					if !seen[k] && len(r.sh[k]) > 0 {
+						r.violate(si, fmt.Sprintf("the handler is given no state for key %s although its map is not empty", short(string(w.c.key(k)))), r.c.expectStr(r.sh.triples(k)), nil)
+						break
+					}
+				}
+			}
+			// the answer: the mutations / timers the model reveals next, grouped per key
+			resp := &handlerpb.ProcessEventBatchResponse{}
+			var items []item
+			for j := si + 1; j < len(beh) && beh[j].Str("a") != "BatchEnd"; j++ {
+				if it, ok := stepItem(beh[j]); ok {
+					items = append(items, it)
+				}
+			}
+			for i := 0; i < len(items); {
+				j := i
+				for j < len(items) && items[j].k == items[i].k {
+					j++
+				}
+				kr := &handlerpb.KeyResult{Key: w.c.key(items[i].k), StateMutationNamespaces: w.c.mutations(items[i:j])}
+				for _, it := range items[i:j] {
+					if it.timer {
+						kr.NewTimers = append(kr.NewTimers, timestamppb.New(w.c.tm(it.t)))
+						res.Count("timers_set", 1)
+					} else {
+						res.Count("mutations", 1)
+					}
+				}
+				resp.KeyResults = append(resp.KeyResults, kr)
+				i = j
+			}
+			c.resp <- resp
+			for _, it := range items {
+				if !it.timer {
+					r.sh.apply(it.k, it.n, it.e, it.v)
+				}
+			}
+			if r.dead {
+				return
+			}
+			select {
+			case err := <-w.fg:
+				if err != nil {
+					r.machinery(si, fmt.Errorf("delivering the batch: %v", err))
+					return
+				}
+			case <-time.After(dkvsched.Wait):
+				r.machinery(si, fmt.Errorf("the operator does not finish the batch"))
+				return
+			}
+			res.Count("batches", 1)
+			if err := r.s.AfterWrite(); err != nil {
+				r.machinery(si, err)
+				return
+			}
+		case "Apply", "SetTimer", "BatchEnd":
+			// already part of the handler's answer
+		case "Bg":
+			if _, err := r.s.Step(st.Str("lane")); err != nil {
+				r.machinery(si, err)
+				return
+			}
+		case "PopTimer":
+			// the watermark passes the model's earliest timer: every timer up to it fires
+			t := w.c.tb.Times[st.Int("t")-1]
+			if t <= w.wm {
+				break
+			}
+			w.wm = t
+			if err := r.s.Relieve(1); err != nil {
+				r.machinery(si, err)
+				return
+			}
+			err := w.awaitServing(si, func() error {
+				if err := w.send(&workerpb.Event{Event: &workerpb.Event_Watermark{Watermark: &workerpb.Watermark{Timestamp: timestamppb.New(time.Unix(0, t))}}}); err != nil {
+					return err
+				}
+				if d := w.tm.Take(); d != nil { // expiries left in a partial batch
+					d()
+				}
+				return nil
+			})
+			if err != nil {
+				r.machinery(si, err)
+				return
+			}
+			// the time-out token is consumed by the loop after d() returns
+			select {
+			case c := <-w.h.calls:
+				w.serve(si, c)
+			case <-time.After(3 * time.Millisecond):
+			}
+			if err := r.s.AfterWrite(); err != nil {
+				r.machinery(si, err)
+				return
+			}
+		case "Checkpoint":
+			id := st.Int("id")
+			n := len(w.job.Acks())
+			if err := w.awaitServing(si, func() error { return w.send(opkit.Barrier(uint64(id))) }); err != nil {
+				r.machinery(si, fmt.Errorf("barrier %d: %v", id, err))
+				return
+			}
+			if len(w.job.Acks()) != n+1 {
+				r.machinery(si, fmt.Errorf("barrier %d was not acknowledged", id))
+				return
+			}
+			r.snap[id] = r.sh.clone()
+			res.Count("checkpoints", 1)
+			if err := r.s.AfterWrite(); err != nil {
+				r.machinery(si, err)
+				return
+			}
+		case "Restore":
+			id := st.Int("id")
+			var ck *snapshotpb.OperatorCheckpoint
+			for _, a := range w.job.Acks() {
+				if int(a.CheckpointId) == id {
+					ck = a
+				}
+			}
+			if ck == nil {
+				r.machinery(si, fmt.Errorf("no acknowledgement for checkpoint %d", id))
+				return
+			}
+			w.stop()
+			r.s.SetMain(nil) // the new operator's database runs freely while it is opened
+			var pan any
+			func() {
+				defer func() { pan = recover() }()
+				if err := w.start([]*snapshotpb.OperatorCheckpoint{ck}); err != nil {
+					pan = err
+				}
+			}()
+			if pan != nil {
+				r.violate(si, fmt.Sprintf("deploying an operator from checkpoint %d fails: %v", id, pan), nil, nil)
+				return
+			}
+			time.Sleep(2 * time.Millisecond) // flushes queued by the WAL replay
+			r.s.AdoptNext()
+			r.sh = r.snap[id].clone()
+			w.wm = 0
+			for i := 0; ; i++ {
+				if err := w.send(&workerpb.Event{Event: &workerpb.Event_Watermark{Watermark: &workerpb.Watermark{Timestamp: timestamppb.New(time.Unix(0, 0))}}}); err == nil {
+					break
+				} else if i > 2000 {
+					r.machinery(si, fmt.Errorf("restored operator does not accept events: %v", err))
+					return
+				}
+				time.Sleep(100 * time.Microsecond)
+			}
+			res.Count("restores", 1)
+		default:
+			r.machinery(si, fmt.Errorf("unknown action %q", a))
+			return
+		}
+		res.Steps++
+	}
+	if r.dead {
+		return
+	}
+	// read everything back through the handler: one batch per key
+	r.s.ArmScan(false)
+	for k := 1; k <= r.c.nk && !r.dead; k++ {
+		if err := r.s.Relieve(1); err != nil {
+			r.machinery(len(beh), err)
+			return
+		}
+		errc := make(chan error, 1)
+		go func() {
+			if err := w.send(keyed(w.c.key(k))); err != nil {
+				errc <- err
+				return
+			}
+			if w.maxSize > 1 {
+				if d := w.tm.Take(); d != nil {
+					d()
+				}
+			}
+			errc <- nil
+		}()
+		select {
+		case c := <-w.h.calls:
+			for _, ks := range c.req.KeyStates {
+				if id := w.c.keyID(ks.Key); id != 0 {
+					r.checkFetch(len(beh), id, ks.StateEntryNamespaces, nil, "final read-back through the handler")
+				}
+			}
+			c.resp <- &handlerpb.ProcessEventBatchResponse{}
+		case <-time.After(dkvsched.Wait):
+			r.machinery(len(beh), fmt.Errorf("final read-back: handler not called"))
+			return
+		}
+		select {
+		case <-errc:
+		case <-time.After(dkvsched.Wait):
+		}
+	}
+	if r.dead {
+		return
+	}
+	res.Count("bg_steps", r.s.Steps)
+	res.Count("bg_steps_forced", r.s.Forced)
+	res.Count("bg_steps_skipped", r.s.Skipped)
+	res.Executed++
+}
+
+func replay(bi int, beh []mbt.Step, in *mbt.Input, res *mbt.Result) {
+	if in.CfgStr("Mode", "store") == "operator" {
+		replayOperator(bi, beh, in, res)
+		return
+	}
+	replayStore(bi, beh, in, res)
+}
+
+func main() {
+	if len(os.Args) >= 3 {
+		if in, err := mbt.ReadInput(os.Args[1]); err == nil && in.CfgStr("Mode", "") == "tables" {
+			r := &mbt.Result{Samples: []any{tablesJSON()}}
+			if err := mbt.WriteResult(os.Args[2], r); err != nil {
+				fmt.Fprintln(os.Stderr, err)
+				os.Exit(2)
+			}
+			return
+		}
+	}
+	mbt.Main(replay)
 }
